@@ -929,11 +929,47 @@ func runClusterSearch(c *Ctx, r *Rng, shape [3]int) {
 				c.Nontrivial("failing-lookup")
 			}
 		}
+		// one remote replica is slow (2.6 s) while the caller's context is alive: the answer is the full sum
+		// (or an error), never the sum without that partition. Once per run: it costs 2.6 s.
+		if remote >= 1 && !slowSizeDone {
+			slowSizeDone = true
+			var cnt int
+			var cmu sync.Mutex
+			fctx, fno := newTrial()
+			cl.mu.Lock()
+			cl.dmHook = func(hctx context.Context, from, to uint64, method string, req interface{}) error {
+				if method != "PartitionInfo" || from != entry || trialOf(hctx) != fno {
+					return nil
+				}
+				cmu.Lock()
+				cnt++
+				mine := cnt
+				cmu.Unlock()
+				if mine == 1 {
+					select {
+					case <-time.After(2600 * time.Millisecond):
+					case <-hctx.Done(): // as over gRPC: the call ends with the context's status
+						return status.FromContextError(hctx.Err()).Err()
+					}
+				}
+				return nil
+			}
+			cl.mu.Unlock()
+			t0 := time.Now()
+			l, _, err := cl.dataset(entry, dsId).SizeInfo(fctx)
+			c.OpLocal("SizeInfo via node %d with one remote replica answering after 2.6 s -> len=%d err=%v after %s", entry, l, err, time.Since(t0).Round(100*time.Millisecond))
+			if err == nil && int(l) != nItems {
+				c.Violate("C17", "C17/partial-sum", fmt.Sprintf("one remote replica took 2.6 s to answer while the caller's context was alive: SizeInfo reported %d items with success, the partitions hold %d", l, nItems), c.History())
+			}
+			c.Nontrivial("slow-lookup")
+		}
 		cl.mu.Lock()
 		cl.dmHook = nil
 		cl.mu.Unlock()
 	}
 }
+
+var slowSizeDone bool
 
 func failingDesc(m map[uint64]error) string {
 	var ss []string
